@@ -16,7 +16,7 @@ mkdir -p "$VERIF_DIR/bin" "$VERIF_DIR/evidence" "$VERIF_DIR/replays"
   flock 9
   cd "$VERIF_DIR/sim" || exit 2
   cmp -s /repo/go.sum go.sum.repo 2>/dev/null || { cp /repo/go.sum go.sum.repo; cat go.sum.repo go.sum 2>/dev/null | sort -u > go.sum.new && mv go.sum.new go.sum; }
-  $GO build -tags verif -o "$VERIF_DIR/bin/vcheck.new" ./cmd/vcheck || exit 2
+  $GO test -c -vet=off -tags verif -o "$VERIF_DIR/bin/vcheck.new" ./cmd/vcheck || exit 2
   mv -f "$VERIF_DIR/bin/vcheck.new" "$VERIF_DIR/bin/vcheck.$PROP"
 ) 9>"$VERIF_DIR/bin/.build.lock"
 rc=$?
